@@ -108,5 +108,6 @@ type Indexed interface {
 
 // PostChecker properties run an auxiliary leg after the seeded sweep.
 type PostChecker interface {
-	Post(tier string, base uint64) ([]workerViolation, map[string]int)
+	// Post returns an error when the leg itself could not run (machinery trouble).
+	Post(tier string, base uint64) ([]workerViolation, map[string]int, error)
 }
